@@ -14,7 +14,7 @@ sys.path.insert(0, os.path.join(VERIF, 'gen'))
 import configs as cg  # noqa: E402
 
 TSAN = ['-fsanitize=thread']
-RULE = ('rapidcheck generates schedules: 2..T threads (quick T=8, thorough T=16), each with a list of up to 12 const operations on two shared vectors and one shared ContiguousElement - size/capacity/empty/data_begin/data_end/memory_consumption/get_fixed_size/get_allocator, operator[]+get<I> reads of every field, front/back, const iteration and iterator arithmetic, ==/!=/</<= between the shared vectors and between references, copy construction of the shared vector, element construction from a const reference and element/reference comparison, reads and copies of the shared element, copy assignment of thread-private vectors and elements from the shared const ones (into a smaller/larger private copy and into a default-constructed vector) - plus arbitrary mutating histories (pop_back, erase, reserve, clear) on thread-private copies made from the shared vector; threads start behind one spin barrier and never synchronise otherwise; oracle: ThreadSanitizer reports no data race (halt_on_error, exit code 66) and every thread computes the digest precomputed single-threaded. NON-TRIVIAL: >=2 threads run the same kind of operation on the shared objects and at least one thread copies the shared vector / builds an element from it / mutates a private copy. DISTINCT: hash of (seed, per-thread op lists).')
+RULE = ('rapidcheck generates schedules: 2..T threads (quick T=8, thorough T=16), each with a list of up to 12 const operations on two shared vectors and one shared ContiguousElement - size/capacity/empty/data_begin/data_end/memory_consumption/get_fixed_size/get_allocator, operator[]+get<I> reads of every field, front/back, const iteration and iterator arithmetic, ==/!=/</<= between the shared vectors and between references, copy construction of the shared vector, element construction from a const reference and element/reference comparison, reads and copies of the shared element, copy assignment of thread-private vectors and elements from the shared const ones (into a smaller/larger private copy and into a default-constructed vector), reads of and element construction from a shared const-qualified object of the mutable reference type, private vectors that emplace_back the fields (get<I>) of the shared const element / const_reference - plus arbitrary mutating histories (pop_back, erase, reserve, clear) on thread-private copies made from the shared vector; threads start behind one spin barrier and never synchronise otherwise; oracle: ThreadSanitizer reports no data race (halt_on_error, exit code 66) and every thread computes the digest precomputed single-threaded. NON-TRIVIAL: >=2 threads run the same kind of operation on the shared objects and at least one thread copies the shared vector / builds an element from it / mutates a private copy. DISTINCT: hash of (seed, per-thread op lists).')
 
 
 def pool(tier, seed):
